@@ -37,10 +37,57 @@ class Sym:
         return Sym(self.a * o.b + o.a * self.b, self.b * o.b)
     __rmul__ = __mul__
 
+    # comparisons: decided for every k >= 1 where possible; an equation a*k+b = c*k+d with a <> c holds for at most one k, which
+    # is recorded as an EXCEPTIONAL scale (the class is then also constructed concretely at that scale), the generic answer
+    # (not equal) is returned
+    def __eq__(self, o):
+        if not isinstance(o, (int, Sym)) or isinstance(o, bool):
+            return False
+        o = Sym.lift(o)
+        if self.a == o.a:
+            return self.b == o.b
+        num, den = o.b - self.b, self.a - o.a
+        if num % den == 0 and num // den >= 1:
+            EXCEPTIONAL.add(num // den)
+        return False
+
+    def __ne__(self, o):
+        return not self.__eq__(o)
+
+    def __hash__(self):
+        return hash((self.a, self.b))
+
+    def _order(self, o, what):
+        o = Sym.lift(o)
+        da, db = self.a - o.a, self.b - o.b          # sign of da*k + db for all k >= 1
+        if da >= 0 and da + db > 0:
+            return 1
+        if da <= 0 and da + db < 0:
+            return -1
+        if da == 0 and db == 0:
+            return 0
+        raise TranslatorFailed(f"comparison {what} of scale-dependent dimensions is not uniform in k")
+
+    def __lt__(self, o): return self._order(o, "<") < 0
+    def __le__(self, o): return self._order(o, "<=") <= 0
+    def __gt__(self, o): return self._order(o, ">") > 0
+    def __ge__(self, o): return self._order(o, ">=") >= 0
+
+    def __bool__(self):
+        if self.a == 0:
+            return self.b != 0
+        if self.a > 0 and self.a + self.b > 0:
+            return True
+        raise TranslatorFailed("truth value of a scale-dependent dimension is not uniform in k")
+
     def coq(self):
         if self.a == 0:
             return f"{self.b}"
         return f"({self.a} * k + {self.b})" if self.b else f"({self.a} * k)"
+
+
+EXCEPTIONAL = set()
+LAST_EXCEPTIONAL = []      # (class name, constructor arguments, input shape) of the exceptional scales met by the last translation
 
 
 def zc(x):
@@ -119,12 +166,29 @@ def symbolic():
                 setattr(mod, nm, st)
     k = Sym(1, 0)
     out = {}
+    del LAST_EXCEPTIONAL[:]
     try:
         kw = dict(device="cpu")
         out["ClgnMnist"] = (_layers(mc.ClgnMnist(k_num=k, **kw)), "1", "[28; 28]", 10)
-        for nb in (1, 3, 5):
-            out[f"ClgnCifar10_nbits{nb}"] = (_layers(mc.ClgnCifar10(n_bits=nb, k_num=k, tau=1.0, **kw)), f"{3 * nb}", "[32; 32]", 10)
-            out[f"ClgnCifar10Res_nbits{nb}"] = (_layers(mc.ClgnCifar10Res(n_bits=nb, k_num=k, tau=1.0, **kw)), f"{3 * nb}", "[32; 32]", 10)
+        exceptional = {}
+
+        def family(name, build, c, sp, classes, desc=None):
+            """symbolic construction; every scale at which a comparison made during construction could come out differently is
+            also constructed concretely (checked by computation in Props/C20 as part of the fixed models)"""
+            EXCEPTIONAL.clear()
+            out[name] = (_layers(build(k)), c, sp, classes)
+            for k0 in sorted(EXCEPTIONAL):
+                if k0 <= 4096:
+                    exceptional[f"{name}_at_k{k0}"] = (_layers(build(k0)), c, sp)
+                    if desc:
+                        LAST_EXCEPTIONAL.append(desc(k0))
+            EXCEPTIONAL.clear()
+
+        for nb in (1, 2, 3, 4, 5):
+            family(f"ClgnCifar10_nbits{nb}", lambda kk, nb=nb: mc.ClgnCifar10(n_bits=nb, k_num=kk, tau=1.0, **kw), f"{3 * nb}", "[32; 32]", 10,
+                   lambda k0, nb=nb: ("ClgnCifar10", dict(n_bits=nb, k_num=k0, tau=1.0), (3 * nb, 32, 32)))
+            family(f"ClgnCifar10Res_nbits{nb}", lambda kk, nb=nb: mc.ClgnCifar10Res(n_bits=nb, k_num=kk, tau=1.0, **kw), f"{3 * nb}", "[32; 32]", 10,
+                   lambda k0, nb=nb: ("ClgnCifar10Res", dict(n_bits=nb, k_num=k0, tau=1.0), (3 * nb, 32, 32)))
         out["ClgnCifar10Tiny"] = (_layers(mc.ClgnCifar10Tiny(k_num=k, **kw)), "9", "[32; 32]", 10)
         out["ClgnCifar10Mini"] = (_layers(mc.ClgnCifar10Mini(k_num=k, tau=1.0, **kw)), "9", "[32; 32]", 10)
         out["DlgnMnist"] = (_layers(md.DlgnMnist(neurons_per_layer=k * 10, tau=1.0, **kw)), "1", "[28; 28]", 10)
@@ -153,7 +217,7 @@ def symbolic():
     finally:
         for mod, nm, real in saved:
             setattr(mod, nm, real)
-    return out, fixed
+    return out, fixed, exceptional
 
 
 FIXED_INPUT = {"Mnist": ("1", "[28; 28]"), "Cifar10Small": ("9", "[32; 32]"), "Cifar10Medium": ("9", "[32; 32]"),
@@ -172,7 +236,7 @@ def fixed_input(name):
 
 
 def gen_models():
-    sym, fixed = symbolic()
+    sym, fixed, exceptional = symbolic()
     out = HEADER + "From Coq Require Import ZArith List.\nFrom TLX Require Import Model.Shapes.\nImport ListNotations.\nLocal Open Scope Z_scope.\n\n"
     names = []
     for nm, (layers, c, sp, classes) in sym.items():
@@ -183,7 +247,13 @@ def gen_models():
         c, sp = fixed_input(nm)
         out += f"Definition {nm}_layers : list lspec :=\n    {layers}.\n"
         out += f"Definition {nm}_input : Z * list Z := ({c}, {sp}).\n\n"
+    for nm, (layers, c, sp) in exceptional.items():
+        out += f"Definition {nm}_layers : list lspec :=\n    {layers}.\n"
+        out += f"Definition {nm}_input : Z * list Z := ({c}, {sp}).\n\n"
     out += "Definition symbolic_models : list (Z -> list lspec) := [" + "; ".join(n + "_layers" for n in names) + "].\n"
     out += "Definition fixed_models : list (list lspec * (Z * list Z)) := [" + "; ".join(
         f"({n}_layers, {n}_input)" for n in fixed) + "].\n"
+    out += ("(* scales at which a comparison made during construction could come out differently from the generic k: built concretely *)\n"
+            "Definition exceptional_models : list (list lspec * (Z * list Z)) := [" + "; ".join(
+                f"({n}_layers, {n}_input)" for n in exceptional) + "].\n")
     return out
